@@ -4,10 +4,11 @@
 //! `nbverif dim`      one case per line; inputs of one session separated by \x1e, lines of an
 //!                    input by \x1f.  Output: <tc>&<tc>…\t<extra>&<extra>…
 //!                      tc    = ok|stmt#stmt…  |  err|<TypeCheckError variant>  |  other|<stage>
-//!                      extra = prints=<k>;rt=<ok|RuntimeErrorKind variant|->;defs=<same|changed>;out=<text>
+//!                      extra = prints=<k>;rt=<ok|RuntimeErrorKind variant|->;defs=<same|changed>;out=<text>;pp=<echoed statements, \x1f separated>
 //! `nbverif dim-env`  names on stdin; prints the name counter, the dimension registry and the
 //!                    environment's type scheme of each name after `use prelude`.
 use numbat::module_importer::BuiltinModuleImporter;
+use numbat::pretty_print::PrettyPrint;
 use numbat::resolver::CodeSource;
 use numbat::verif::dim as hook;
 use numbat::{Context, InterpreterResult, InterpreterSettings, NumbatError};
@@ -67,7 +68,12 @@ pub fn run_input(ctx: &mut Context, code: &str) -> (String, String) {
                     InterpreterResult::Value(v) => format!("{v}"),
                     InterpreterResult::Continue => "-".to_string(),
                 };
-                (format!("ok|{tc}"), "ok".to_string(), out)
+                let pp = stmts
+                    .iter()
+                    .map(|s| s.pretty_print().to_string())
+                    .collect::<Vec<_>>()
+                    .join("\u{1f}");
+                (format!("ok|{tc}"), "ok".to_string(), format!("{out}\u{1d}{pp}"))
             }
             Err(e) => match *e {
                 NumbatError::TypeCheckError(t) => (
@@ -100,21 +106,56 @@ pub fn run_input(ctx: &mut Context, code: &str) -> (String, String) {
             "-".to_string(),
         )
     });
+    // accepted inputs: value text and the pretty-printed (echoed) statements
+    let (out, pp) = match out.split_once('\u{1d}') {
+        Some((o, p)) => (o.to_string(), p.to_string()),
+        None => (out, String::new()),
+    };
     let out = if tc.starts_with("other|") || rt != "ok" { out } else { esc(&out) };
     let after = census(ctx);
     let np = prints.lock().unwrap().len();
     (
         tc,
         format!(
-            "prints={np};rt={rt};defs={};out={}",
+            "prints={np};rt={rt};defs={};out={};pp={}",
             if before == after { "same" } else { "changed" },
-            out
+            out,
+            esc(&pp)
         ),
     )
 }
 
+/// `use prelude` on a fresh Context; Err(text) when the prelude itself is rejected
+/// (text = `<stage>|<variant> <message>`), so that the check can report it as an input.
+pub fn try_prelude_context() -> Result<Context, String> {
+    let r = catch_unwind(|| {
+        let mut ctx = Context::new(BuiltinModuleImporter::default());
+        ctx.load_currency_module_on_demand(false);
+        match ctx.interpret("use prelude", CodeSource::Internal) {
+            Ok(_) => Ok(ctx),
+            Err(e) => Err(match *e {
+                NumbatError::TypeCheckError(t) => {
+                    format!("err|{} {}", variant(&format!("{t:?}")), esc(&format!("{t}")))
+                }
+                NumbatError::RuntimeError(r) => format!("runtime|{}", esc(&format!("{r}"))),
+                NumbatError::ResolverError(e) => format!("other|Resolver {}", esc(&format!("{e}"))),
+                NumbatError::NameResolutionError(e) => {
+                    format!("other|NameResolution {}", esc(&format!("{e}")))
+                }
+            }),
+        }
+    });
+    r.unwrap_or_else(|_| Err("other|PANIC".to_string()))
+}
+
 pub fn main() {
-    let base = prelude_context();
+    let base = match try_prelude_context() {
+        Ok(c) => c,
+        Err(e) => {
+            println!("@@PRELUDE-REJECTED {e}");
+            return;
+        }
+    };
     let stdin = io::stdin();
     let stdout = io::stdout();
     let mut w = io::BufWriter::new(stdout.lock());
@@ -136,8 +177,50 @@ pub fn main() {
     }
 }
 
+/// `nbverif dim-run`: like `dim`, and after each input the raw values of the globals named in the
+/// first \x1c-separated field of the case: `names\x1cinput\x1einput…`; extra gets `;raw=name=<text>,…`
+pub fn main_run() {
+    let base = prelude_context();
+    let stdin = io::stdin();
+    let stdout = io::stdout();
+    let mut w = io::BufWriter::new(stdout.lock());
+    for line in stdin.lock().lines() {
+        let line = line.unwrap();
+        if line.trim().is_empty() {
+            continue;
+        }
+        let (names, body) = line.split_once('\u{1c}').unwrap_or(("", &line));
+        let mut ctx = base.clone();
+        let mut tcs = Vec::new();
+        let mut extras = Vec::new();
+        for input in body.split('\u{1e}') {
+            let code = input.replace('\u{1f}', "\n");
+            let (tc, extra) = run_input(&mut ctx, &code);
+            let raws: Vec<String> = names
+                .split(',')
+                .filter(|n| !n.is_empty())
+                .map(|n| {
+                    let t = catch_unwind(AssertUnwindSafe(|| hook::raw_global_text(&ctx, n)))
+                        .unwrap_or(None)
+                        .unwrap_or_else(|| "-".to_string());
+                    format!("{n}={t}")
+                })
+                .collect();
+            tcs.push(tc);
+            extras.push(format!("{extra};raw={}", raws.join("!")));
+        }
+        writeln!(w, "{}\t{}", tcs.join("&"), extras.join("&")).unwrap();
+    }
+}
+
 pub fn main_env() {
-    let ctx = prelude_context();
+    let ctx = match try_prelude_context() {
+        Ok(c) => c,
+        Err(e) => {
+            println!("prelude-rejected {e}");
+            return;
+        }
+    };
     let stdin = io::stdin();
     let stdout = io::stdout();
     let mut w = io::BufWriter::new(stdout.lock());
